@@ -1,5 +1,5 @@
 """C17 xsync.Group: StopAndWait is a barrier; triggers are never lost or overlapped (spec/xsync Trace_Group)."""
-from bubblecommon import bubble_tv
+from bubblecommon import bubble_tv, rt_tv
 from common import mc, mc_must_fail
 
 
@@ -19,5 +19,9 @@ def run(ctx):
     #    released by the harness, Stop / StopAndWait / parent cancellation; judged by Trace_Group
     bubble_tv(ctx, "TestGroup", "xsync", "Trace_Group", "tv_group.cfg", "group", {"n": ctx.pick(500, 5000), "race_n": ctx.pick(1500, 15000)}, silent=False)
     bubble_tv(ctx, "TestGroup", "xsync", "Trace_Group", "tv_group.cfg", "group perturbed", {"n": ctx.pick(400, 4000), "race_n": 0}, silent=False, perturb=True)
+    # real clock, pre-1.23 timer semantics (what the library's own go.mod selects; bubbles cannot run them): a run of a
+    # PeriodicOrTrigger function that outlasts the interval while a trigger arrives - afterwards it must still be invoked
+    # periodically (judged with 1.3 s of slack; a rejection has to repeat in a second recording)
+    rt_tv(ctx, "group", "xsync", "Trace_Group", "tv_group.cfg", "group asynctimerchan=1", ctx.pick(12, 48))
     ctx.assumptions += ["registrations racing with StopAndWait are also exercised with true parallelism outside the bubble (same trace vocabulary)",
                         "'keeps being invoked': at quiescence the next periodic run is due at most interval+jitter after the previous one began (fake time)"]
